@@ -26,6 +26,7 @@
   X(CREATE1_ENTER, W) \
   X(JOIN_LOCKED, W) \
   X(JOIN_BEFORE_POP, B) \
+  X(JOIN_BEFORE_SWITCH, W) \
   X(JOIN_CB_BEFORE_SET, W) \
   X(JOIN_CB_AFTER_UNLOCK, W) \
   X(JOIN_WAIT_FR2, S) \
@@ -54,10 +55,12 @@
   X(DETACH_RUNNING, C) \
   /* blocking / waking (myth_sync_func.h) */ \
   X(BQ_BEFORE_POP, B) \
+  X(BQ_BEFORE_SWITCH, W) \
   X(BQ_CB_BEFORE_ENQ, W) \
   X(BQ_CB_AFTER_ENQ, W) \
   X(BQ_CB_AFTER_UNLOCK, W) \
   X(BS_BEFORE_POP, B) \
+  X(BS_BEFORE_SWITCH, W) \
   X(BS_CB_BEFORE_PUSH, W) \
   X(BS_CB_AFTER_PUSH, W) \
   X(WAKE1_SPIN, S) \
@@ -102,6 +105,7 @@
   X(JC_DEC_BEFORE_WAKE, W) \
   X(JC_WAIT_IMMEDIATE, C) \
   X(UNC_BEFORE_POP, B) \
+  X(UNC_BEFORE_SWITCH, W) \
   X(UNC_CB_BEFORE_PUB, W) \
   X(UNC_SIG_SPIN, S) \
   X(UNC_SIG_AFTER_CLEAR, W) \
